@@ -1,0 +1,32 @@
+//go:build verif
+
+// Contracts for package internal (frequency sketch and doorkeeper of the TinyLFU policy), read by /verif/gocv
+// (comment-only; no code).
+package internal
+
+// What the TinyLFU policy relies on: these operations touch nothing but the sketch / filter they are called on.
+//@ func (*BloomFilter).Init
+//@   trusted
+//@   modifies f.numHashes, f.bitsMask, f.bits
+//@ func (*BloomFilter).Put
+//@   trusted
+//@   modifies f.bits[*]
+//@ func (*BloomFilter).Contains
+//@   trusted
+//@ func (*BloomFilter).Reset
+//@   trusted
+//@   modifies f.bits[*]
+//@ func (*CountMinSketch).Init
+//@   trusted
+//@   modifies c.counters, c.mask, c.counters[*]
+//@ func (*CountMinSketch).Add
+//@   trusted
+//@   modifies c.counters[*]
+//@ func (*CountMinSketch).Estimate
+//@   trusted
+//@ func (*CountMinSketch).Reset
+//@   trusted
+//@   modifies c.counters[*]
+//@ func ComputeHash
+//@   trusted
+//@   pure
